@@ -320,6 +320,8 @@ func TestWorker(t *testing.T) {
 		}
 		agg := newAgg()
 		perRun := os.Getenv("VERIF_PER_RUN") == "1"
+		violSeen := map[string]int{}
+		violRuns := 0
 		for i := *fFrom; (*fTo == 0 || i < *fTo); i += *fStride {
 			if !deadline.IsZero() && time.Now().After(deadline) {
 				break
@@ -329,6 +331,29 @@ func TestWorker(t *testing.T) {
 				curF.WriteAt([]byte(fmt.Sprintf("{\"run\":%12d}\n", i)), 0)
 			}
 			rec := executePlan(t, p, false)
+			if len(rec.Violations) > 0 && !perRun {
+				// the plan travels with the first 40 runs of each violation class; later ones are
+				// counted without it, and a worker that has seen 5000 violating runs stops: nothing
+				// more is learnt, and the orchestrator reads all of this into memory
+				fresh := false
+				for _, v := range rec.Violations {
+					kb, _ := json.Marshal(v.Key)
+					sig := v.Property + "|" + v.Class + "|" + string(kb)
+					if violSeen[sig] < 40 {
+						fresh = true
+					}
+					violSeen[sig]++
+				}
+				violRuns++
+				if !fresh {
+					rec.Log = nil
+					emit(rec)
+					if violRuns >= 5000 {
+						break
+					}
+					continue
+				}
+			}
 			if len(rec.Violations) > 0 || samples < *fSamples || perRun {
 				if len(rec.Violations) > 0 || samples < *fSamples {
 					rec.Plan = p
